@@ -157,6 +157,11 @@ var offenders = []offender{
 	{"datetime-precision-kind", true, false, func() *gen.Node { return gen.NCall("datetime", id("k"), id("p"), str("RFC3339")) }},
 	{"default_time-argc0", true, false, func() *gen.Node { return gen.NCall("default_time") }},
 	{"default_time-zone-kind", true, false, func() *gen.Node { return gen.NCall("default_time", id("k"), id("z")) }},
+	// the kind rule of an argument holds whatever follows it in the call
+	{"default_time-zone-kind-surplus-1", true, false, func() *gen.Node { return gen.NCall("default_time", id("k"), i64(8), str("Asia/Shanghai")) }},
+	{"default_time-zone-kind-surplus-2", true, false, func() *gen.Node { return gen.NCall("default_time", id("k"), id("z"), str("UTC")) }},
+	{"default_time-zone-kind-surplus-3", true, false, func() *gen.Node { return gen.NCall("default_time", id("k"), gen.NNil(), i64(1), i64(2)) }},
+	{"grok-pattern-kind-with-flag", true, false, func() *gen.Node { return gen.NCall("grok", id("k"), id("p"), gen.NBool(true)) }},
 	{"use-argc0", true, false, func() *gen.Node { return gen.NCall("use") }},
 	{"use-name-kind", true, false, func() *gen.Node { return gen.NCall("use", id("k")) }},
 	{"sql_cover-argc0", true, false, func() *gen.Node { return gen.NCall("sql_cover") }},
@@ -666,6 +671,9 @@ func TestContextTable(t *testing.T) {
 		"if true { if true { x = @ } elif true { } } elif true { }", "for x in [1] { if true { @ } elif true { } }", "for ;; { if true { x = @ } elif true { }\n break }",
 		"x = 1\nx += @", "x = 1\nx -= @", "l = [1]\nl[@] = 1", "m = {}\nm[\"k\"] = [1]\nm[\"k\"][@] += 1", "l = [1]\nl[0] = @", "@", "x = @", "x = 1\n@\ny = 2",
 		"x, y = 1, @", "x, y = @, 1", "l = [1, 2]\nl[0], l[@] = 1, 2",
+		// the hole is, or sits inside, the target of an assignment (the grammar takes any expression there)
+		"@ = 5", "pval(@) = 5", "[1, @] = 3", "(@) = 1", "a = [1, 2]\na[1:@] = 0", "@ += 1", "a, @ = 1, 2", "@, a = 1, 2", "for @ = 0; false; { }", "-@ = 1", "@ + 1 = 2", "{\"k\": @} = 1",
+		"a = [[1]]\na[0][@] = 1", "a = [1]\na[@] += 1", "if true { @ = 1 }", "for x in [1] { (@) -= 1 }", "a.b[@] = 1", "x = 1\n!@ = 2",
 	}
 	type off struct {
 		text   string
@@ -714,7 +722,7 @@ func TestContextTable(t *testing.T) {
 // scope where it stands, not on what the same pattern text meant in a script (or block) checked earlier in the process.
 func TestAliasEnvironments(t *testing.T) {
 	n := 0
-	for round, order := range [][]int{{0, 1, 2, 3, 4, 5, 6, 7, 8, 9, 10, 11}, {1, 0, 3, 2, 5, 4, 6, 11, 10, 9, 8, 7}, {3, 4, 0, 6, 1, 2, 5, 8, 10, 7, 11, 9}, {11, 10, 9, 8, 7, 6, 5, 4, 3, 2, 1, 0}} {
+	for round, order := range [][]int{{0, 1, 2, 3, 4, 5, 6, 7, 8, 9, 10, 11, 12, 13, 14}, {1, 0, 3, 2, 5, 4, 6, 11, 10, 9, 8, 7, 14, 13, 12}, {3, 4, 0, 6, 12, 1, 2, 5, 8, 13, 10, 7, 11, 9, 14}, {14, 13, 12, 11, 10, 9, 8, 7, 6, 5, 4, 3, 2, 1, 0}} {
 		al := fmt.Sprintf("al%d", round)
 		g := "grok(_, \"%{" + al + ":n}\")"
 		scripts := []struct {
@@ -734,6 +742,10 @@ func TestAliasEnvironments(t *testing.T) {
 			{"add_pattern(\"outer" + al + "\", \"x\")\nif true { add_pattern(\"" + al + "\", \"y\") } else { " + g + " }", false},
 			{"add_pattern(\"outer" + al + "\", \"x\")\nfor i in [1] { add_pattern(\"" + al + "\", \"y\") }\nif true { " + g + " }", false},
 			{"add_pattern(\"" + al + "\", \"[a-z]+\")\nif true { add_pattern(\"" + al + "\", \"(\") }\n" + g, true},
+			// an alias defined inside a condition (of an if, an elif, a loop) belongs to that statement
+			{"if add_pattern(\"" + al + "\", \"\\\\d+\") { }\n" + g, false},
+			{"if false { } elif add_pattern(\"" + al + "\", \"x\") == nil { }\nif true { " + g + " }", false},
+			{"for ; add_pattern(\"" + al + "\", \"x\"); { break }\n" + g, false},
 			{"add_pattern(\"" + al + "\", \"[a-z]+\")\nfor i in [1] { if true { add_pattern(\"" + al + "\", \"\\\\d\") } }\nif true { " + g + " }", true},
 		}
 		for _, k := range order {
@@ -753,7 +765,7 @@ func TestAliasEnvironments(t *testing.T) {
 			n++
 		}
 	}
-	evid.Exhaustive("one pattern text x 12 alias environments x 4 check orders", n)
+	evid.Exhaustive("one pattern text x 15 alias environments x 4 check orders", n)
 }
 
 // TestFaultingCheckFunction: a registered function whose check function faults (it looks at its first argument before
@@ -874,6 +886,10 @@ func TestFixedOffenders(t *testing.T) {
 		v2   bool
 	}{
 		{"a = [1,2,3]\nb = a[::nosuch()]", "nosuch()", true, true},
+		{"default_time(time, 8, \"Asia/Shanghai\")", "default_time(time, 8, \"Asia/Shanghai\")", true, false},
+		{"tz = \"UTC\"\ndefault_time(time, tz, \"UTC\")", "default_time(time, tz, \"UTC\")", true, false},
+		{"if true { default_time(time, nil, 1, 2) }", "default_time(time, nil, 1, 2)", true, false},
+		{"grok(_, pat, true)", "grok(_, pat, true)", true, false},
 		{"a = [1,2,3]\nb = a[1::nosuch()]", "nosuch()", true, true},
 		{"a = [1,2,3]\nb = a[:2:nosuch()]", "nosuch()", true, true},
 		{"cast(1, .[0])", "cast(1, .[0])", true, false},
